@@ -508,7 +508,7 @@ def c20_program(args):
             # ---- fault inside a seeded third of the commands
             fault = None
             if rnd.random() < 0.34 and before is not None:
-                choices = ["rename-EIO", "rename-EACCES", "unlink-EIO", "open-root-EIO", "open-root-EACCES", "fsync-EIO"]
+                choices = ["rename-EIO", "rename-EACCES", "unlink-EIO", "open-root-EIO", "open-root-EACCES", "fsync-EIO", "rename-KILL", "write-KILL", "write-KILL"]
                 if mounted:
                     choices += ["disk-full"] * 4
                 fault = rnd.choice(choices)
@@ -524,6 +524,12 @@ def c20_program(args):
                         f.write(b"\0" * max(0, avail - free))
                 except OSError:
                     pass
+            elif fault == "rename-KILL":
+                # the process dies on entry to the call that would publish the new file
+                full = ["strace", "-f", "-qq", "-o", "/dev/null", "-e", "trace=rename,renameat,renameat2,linkat", "-e", "inject=rename,renameat,renameat2,linkat:signal=KILL"] + full
+            elif fault == "write-KILL":
+                k = rnd.randrange(1, 7)
+                full = ["strace", "-f", "-qq", "-o", "/dev/null", "-e", "trace=write", "-e", "inject=write:signal=KILL:when=%d" % k] + full
             elif fault and fault.startswith("rename"):
                 e = fault.split("-")[1]
                 full = ["strace", "-f", "-qq", "-o", "/dev/null", "-e", "trace=rename,renameat,renameat2,linkat", "-e", "inject=rename,renameat,renameat2,linkat:error=%s" % e] + full
@@ -550,6 +556,31 @@ def c20_program(args):
             after = open(path, "rb").read() if os.path.exists(path) else None
             ctx = {"program_index": pi, "command_index": ci, "command": res["sample"]["commands"][ci], "fault": fault, "exit": rc}
             strays = [n for n in os.listdir(work) if n not in ("root.json",)]
+            if rc in (-9, 137):
+                # killed: the file is the old one or a complete new one, never anything else
+                res["states"].add(("killed", name, fault))
+                res["nontrivial"].add((name, fault, "killed"))
+                if after != before:
+                    ok_new = False
+                    try:
+                        d1 = json.loads(after.decode())
+                        s1 = d1["signed"]
+                        ok_new = (s1.get("_type") == "root" and all(hashlib.sha256(canon(k)).hexdigest() == kid.lower() for kid, k in s1["keys"].items())
+                                  and (name in ("sign", "sign-missing-key") or not d1.get("signatures")))
+                    except (ValueError, KeyError, TypeError, AttributeError):
+                        ok_new = False
+                    if not ok_new:
+                        res["violations"].append(dict(ctx, key="crash-left-root-json-damaged:%s:%s" % (name, fault),
+                                                      detail="the process was killed and root.json is neither the previous file nor a well-formed new one (%s bytes)" % (after and len(after))))
+                        break
+                    s1 = json.loads(after.decode())["signed"]
+                    model = {"version": s1["version"], "keys": s1["keys"], "roles": {r: {"keyids": s1["roles"][r]["keyids"], "threshold": s1["roles"][r]["threshold"]} for r in s1["roles"]},
+                             "expires": None, "consistent": s1["consistent_snapshot"]}
+                for n2 in os.listdir(work):
+                    # a crash may leave a temporary file behind; remove it so that later "stray file" checks stay meaningful
+                    if n2 not in ("root.json",) and n2.startswith(".tmp"):
+                        os.unlink(os.path.join(work, n2))
+                continue
             if rc != 0:
                 res["states"].add(("fail", name, fault))
                 if after != before:
@@ -671,7 +702,7 @@ def run_c20(tier, replay=None):
     with multiprocessing.Pool(THREADS) as pool:
         results = pool.map(c20_program, [(i, SEED, tier) for i in range(n)])
     return report("C20", tier, results, known, t0,
-                  rule="seeded command programs of 3..12 `tuftool root` subcommands (init, add-key, remove-key, set-threshold, set-version, bump-version, expire, sign) over 1..3 keys (RSA, ECDSA, Ed25519), including commands that must fail (missing key file, threshold 0, version 0 / 2^64, unparsable date, unmet threshold); inside a seeded third of the commands one fault: every rename/link call fails (EIO/EACCES), every unlink fails, fsync fails, opening root.json fails, or the directory sits on a tmpfs that is full or nearly full (short writes, ENOSPC); non-trivial = distinct (command, fault, outcome) triples in which a fault was active; distinct = the same triples",
+                  rule="seeded command programs of 3..12 `tuftool root` subcommands (init, add-key, remove-key, set-threshold, set-version, bump-version, expire, sign) over 1..3 keys (RSA, ECDSA, Ed25519), including commands that must fail (missing key file, threshold 0, version 0 / 2^64, unparsable date, unmet threshold); inside a seeded third of the commands one fault: every rename/link call fails (EIO/EACCES), every unlink fails, fsync fails, opening root.json fails, the process is killed on entry to the publishing rename or to its k-th write, or the directory sits on a tmpfs that is full or nearly full (short writes, ENOSPC); non-trivial = distinct (command, fault, outcome) triples in which a fault was active; distinct = the same triples",
                   level="exploration",
                   assumptions=["outcome-based oracle only (exit status vs file content), because tuftool runs a multi-thread runtime",
                                "signature validity is decided by the tough library (itself checked by C01) and, for all-Ed25519 root key sets, independently by aws-lc over the reference canonical form",
